@@ -25,9 +25,9 @@ def _scenes(ctx):
     pmlall = {f: "pml" for f in ("min_x", "max_x", "min_y", "max_y", "min_z", "max_z")}
     mixed = {"min_x": "pec", "max_x": "pmc", "min_z": "pml", "max_z": "pml"}
     base = [
-        ("periodic-energy", {"shape": [6, 6, 6], "T": 9, "bounds": per, "sources": [{"pos": [3, 3, 3], "pol": 0}], "slab": {"lo": [0, 0, 2], "hi": [6, 6, 4], "eps": 2.0},
+        ("periodic-energy", {"shape": [6, 6, 6], "T": 9, "bounds": per, "sources": [{"pos": [3, 3, 3], "pol": 0}, {"pos": [2, 3, 3], "pol": 1, "switch": {"interval": 2, "start_after_periods": 0.5, "period": 2.4e-15}}], "slab": {"lo": [0, 0, 2], "hi": [6, 6, 4], "eps": 2.0},
                              "detectors": [{"kind": "energy", "name": "en", "lo": [1, 1, 1], "hi": [5, 5, 5]}]}, [0, 1]),  # T=9,K=1: boundary 4.5 (round-half-even tie)
-        ("pmlz-field", {"shape": [6, 6, 10], "T": 10, "bounds": pmlz, "pml": 3, "sources": [{"pos": [3, 3, 5], "pol": 1}], "slab": {"lo": [0, 0, 4], "hi": [6, 6, 6], "eps": 3.0},
+        ("pmlz-field", {"shape": [6, 6, 10], "T": 10, "bounds": pmlz, "pml": 3, "sources": [{"pos": [3, 3, 5], "pol": 1, "switch": {"fixed_on_time_steps": [2, 3, 5, 6, 8]}}, {"pos": [2, 2, 5], "pol": 0, "kind": "mdipole", "switch": {"interval": 3}}], "slab": {"lo": [0, 0, 4], "hi": [6, 6, 6], "eps": 3.0},
                         "detectors": [{"kind": "field", "name": "fd", "lo": [2, 2, 4], "hi": [4, 4, 7], "switch": {"interval": 2}}]}, [3]),  # T=10,K=3: boundaries 2.5, 5, 7.5 (ties)
         ("pmlall-poynting", {"shape": [9, 9, 9], "T": 10, "bounds": pmlall, "pml": 2, "sources": [{"pos": [4, 4, 4], "pol": 2}, {"pos": [3, 5, 4], "pol": 0, "kind": "mdipole"}],
                              "detectors": [{"kind": "poynting", "name": "pf", "lo": [3, 3, 6], "hi": [6, 6, 7], "axis": 2}]}, [0, 9]),
@@ -57,7 +57,8 @@ def _scenes(ctx):
             sigma = rng.choice([0.0, 0.0, 0.0, 1e3])
             dets = [{"kind": rng.choice(["energy", "field", "poynting"]), "name": "d0", "lo": [c[0] - 1, c[1] - 1, c[2]], "hi": [c[0] + 1, c[1] + 1, c[2] + 1], "axis": 2,
                      "switch": rng.choice([{}, {"interval": 2}, {"fixed_on_time_steps": sorted(rng.sample(range(T), 3))}])}]
-            sc = {"shape": shp, "T": T, "bounds": b, "pml": pml, "sources": [{"pos": c, "pol": rng.randint(0, 2), "kind": rng.choice(["dipole", "mdipole"])}],
+            sc = {"shape": shp, "T": T, "bounds": b, "pml": pml, "sources": [{"pos": c, "pol": rng.randint(0, 2), "kind": rng.choice(["dipole", "mdipole"]),
+                               "switch": rng.choice([{}, {}, {"interval": 2}, {"fixed_on_time_steps": sorted(rng.sample(range(T), 4))}, {"start_time": 0.0, "interval": 3}])}],
                   "slab": {"lo": [c[0] - 1, c[1] - 1, c[2] - 1], "hi": [c[0] + 1, c[1] + 1, c[2] + 1], "eps": rng.choice([1.5, 2.0, 4.0]), "mu": rng.choice([1.0, 1.0, 2.0]), "sigma": sigma}, "detectors": dets}
             K = T - 1 if sigma > 0 else rng.choice([0, 1, 2, T - 1])
             yield {"id": f"rand{n}-K{K}", "scene": sc, "K": K, "wseed": rng.randrange(10**6)}
